@@ -150,6 +150,25 @@ void process_setup(const char *) {
 	seam::set_mxcsr(0x1F80);
 }
 
+// ------------------------------------------------------------------ edge buffers
+// Caller-owned buffers handed to the library (hash input, hash output, key) are placed, in two ops out of three, so that
+// they END at an inaccessible page, at whatever alignment their length gives them: a read or write one byte past the
+// buffer faults, and nothing may be assumed about the alignment of caller memory. One slot per simulated thread.
+struct EdgeSlot { uint8_t *base = nullptr; };
+static EdgeSlot g_edge[MAXTASK + 1][2];
+static uint8_t *edge_place(int task, int which, size_t len) { // returns a pointer p with p + len == start of a PROT_NONE page
+	EdgeSlot &e = g_edge[task <= MAXTASK ? task : 0][which];
+	const size_t PG = 4096, DATA = 2 * PG;
+	if (!e.base) {
+		void *m = mmap(nullptr, DATA + PG, PROT_READ | PROT_WRITE, MAP_PRIVATE | MAP_ANONYMOUS, -1, 0);
+		if (m == MAP_FAILED) return nullptr;
+		mprotect((uint8_t *)m + DATA, PG, PROT_NONE);
+		e.base = (uint8_t *)m;
+	}
+	if (len > DATA) return nullptr;
+	return e.base + DATA - len;
+}
+
 // ------------------------------------------------------------------ helpers
 static void poison_item(uint64_t idx, uint8_t out[64]) {
 	uint64_t x = idx * 0x9e3779b97f4a7c15ULL + 0x706f69736f6eULL;
@@ -372,8 +391,12 @@ static void exec_op(RunState &rs, int i) {
 	case INIT_CACHE: {
 		if (!need(rs.C[o.c] != nullptr)) break;
 		ctx.owner_class = seam::OWN_CACHE;
+		const uint8_t *kp = rs.keyb[o.key].data(); size_t kl = rs.keyb[o.key].size();
+		static const uint8_t nokey = 0;
+		if (kl == 0) kp = &nokey;
+		else if (i % 3 != 0) { uint8_t *p = edge_place(task, 0, kl); if (p) { memcpy(p, kp, kl); kp = p; } }
 		seam::lib_enter(&ctx);
-		randomx_init_cache(rs.C[o.c], rs.keyb[o.key].data(), rs.keyb[o.key].size());
+		randomx_init_cache(rs.C[o.c], kp, kl);
 		seam::lib_exit();
 		res.executed = true; res.requests = ctx.requests;
 		break;
@@ -455,6 +478,12 @@ static void exec_op(RunState &rs, int i) {
 		uint32_t env = o.env >= 0 ? (uint32_t)o.env : thread_csr;
 		memset(res.digest, 0xEE, 32);
 		uint8_t *out = res.digest;
+		uint8_t *edge_out = nullptr;
+		if (i % 3 != 0) {
+			if (in && inlen) { uint8_t *p = edge_place(task, 0, inlen); if (p) { memcpy(p, in, inlen); in = p; } }
+			edge_out = edge_place(task, 1, 32);
+			if (edge_out) { memset(edge_out - 32, 0xC9, 32); memset(edge_out, 0xEE, 32); out = edge_out; }
+		}
 		bool threw = false;
 		// x87 control word derived from the environment: precision control 24/53/64 bit, any rounding control, exceptions masked
 		static const uint16_t PC[4] = {0x0000, 0x0200, 0x0300, 0x0300};
@@ -484,6 +513,11 @@ static void exec_op(RunState &rs, int i) {
 		seam::set_x87cw(0x037F);
 		seam::lib_exit();
 		if (o.kind == HASH && cw_after != cw && !threw) { char d[64]; snprintf(d, sizeof d, "before=0x%04x after=0x%04x", cw, cw_after); viol("MXCSR_CHANGED", "hash changed the x87 control word vm=" + flagstr(rs.Vflags[o.v] & ~128u), d, i); }
+		if (edge_out) {
+			memcpy(res.digest, edge_out, 32);
+			for (int k = 1; k <= 32; ++k) if (edge_out[-k] != 0xC9) { viol("OUTPUT_UNDERRUN", std::string(kind_name(o.kind)) + " wrote in front of the 32-byte output buffer", "", i); break; }
+			rs.rep->probes["edge_buffers"]++;
+		}
 		if (threw) { rs.vm_tainted[o.v] = true; rs.rep->probes["hash_call_threw"]++; }
 		if (ctx.fired) rs.rep->probes["alloc_fault_in_hash_fired"]++;
 		thread_csr = (after & 0xFFC0u) | 0x1F80u; // keep control bits (rounding, FTZ, DAZ) with all exceptions masked, drop sticky flags
@@ -571,6 +605,12 @@ static void exec_op(RunState &rs, int i) {
 static void task_body(int task, void *arg) {
 	RunState &rs = *(RunState *)arg;
 	seam::set_mxcsr(0x1F80);
+	{ // calls any thread may make at any time: feature detection and the size query
+		seam::OpCtx c; c.task = task; c.op_name = "get_flags";
+		seam::lib_enter(&c);
+		volatile unsigned f = (unsigned)randomx_get_flags(); volatile unsigned long n = randomx_dataset_item_count(); (void)f; (void)n;
+		seam::lib_exit();
+	}
 	for (int i : rs.task_ops[task]) exec_op(rs, i);
 }
 
